@@ -180,7 +180,20 @@ impl<'a> Tr<'a> {
                 return Ok(Val { s: app(&v.ctor, &a), ty: Ty::Adt(tn) });
             }
         }
-        let fs = self.find_fns(Some(&tn), fname);
+        let mut fs = self.find_fns(Some(&tn), fname);
+        if fs.is_empty() && !self.t.adts.contains_key(&tn) {
+            // `MajorMinor::new(..)`: the monomorphic instances `MajorMinor<..>` whose parameter types fit the arguments
+            let prefix = format!("{}<", tn);
+            let avs: Vec<Option<Val>> = args.iter().map(|a| self.pure(a, env, None).ok()).collect();
+            fs = self
+                .t
+                .fns
+                .iter()
+                .filter(|f| f.name == fname && f.self_ty.as_deref().map(|s| s.starts_with(&prefix)).unwrap_or(false) && f.self_kind == SelfKind::None && f.params.len() == args.len())
+                .filter(|f| f.params.iter().zip(avs.iter()).all(|(p, a)| a.as_ref().map(|v| join(&v.ty, &p.1).is_ok()).unwrap_or(true)))
+                .cloned()
+                .collect();
+        }
         let fs: Vec<FnInfo> = if fs.len() > 1 {
             // several trait impls (e.g. From<A>, From<B>): choose by the first argument's type
             let a0 = if args.is_empty() { None } else { self.pure(args[0], env, None).ok() };
